@@ -65,7 +65,15 @@ func (y *yieldReader) Read(b []byte) (int, error) {
 	if k%257 == 0 {
 		time.Sleep(20 * time.Microsecond)
 	}
-	return tape.OSReader().Read(b)
+	n, err := tape.OSReader().Read(b)
+	if k%7 == 0 && err == nil && n == len(b) {
+		// every seventh read delivers all-ones: as good a stream as any, and one in which the bounded draw
+		// meets rejected raw words all the time instead of once in a hundred million draws
+		for i := range b {
+			b[i] = 0xFF
+		}
+	}
+	return n, err
 }
 
 var c14Methods = []string{"Generate", "Entropy", "Alphabet", "SuccessProbability", "Size", "Separator", "NewWordList"}
